@@ -21,6 +21,22 @@ ASSUMPTIONS = [
 GP_ALGS = ["PaVeBaGP-IH", "PaVeBaGP-DE", "PartialGP-rect", "PartialGP-ell"]
 
 
+def facet_truths(W, u):
+    """K = 4, m = 3: for each facet k a difference d with facet values (+, +, +) on the others and - on facet k"""
+    W = np.asarray(W, float)
+    out = []
+    base = np.array([-1.0, 1.0, 3.0, 1.0])
+    for k in range(4):
+        t = np.roll(base, k) * 1.5 * u
+        d = np.linalg.lstsq(W, t, rcond=None)[0]
+        if np.allclose(W @ d, t, atol=1e-9):
+            out.append(np.array([[0.0, 0.0, 0.0], d.tolist()]))
+    axis = np.linalg.lstsq(W, np.ones(4) * 2.0 * u, rcond=None)[0]
+    out.append(np.array([[0.0, 0.0, 0.0], axis.tolist()]))
+    out.append(np.zeros((2, 3)))
+    return out
+
+
 def units(ctx):
     us = []
     cs = [("comp", 2), ("theta", 45), ("theta", 60), ("theta", 120), ("theta", 135), ("theta", 150)]
@@ -51,6 +67,13 @@ def units(ctx):
             for spec in (("comp", 3), ("c3d", "acute"), ("c3d", "obtuse")):
                 for mu in reach.truths(2, 3, True):
                     us.append(("reach", PROPERTY, alg, spec, 3, 2, mu, 7, 1))
+    # cones with more NON-REDUNDANT facets than objectives exist only from m = 3 on (ice-cream cones, K = 4): the
+    # ellipsoidal variants decide per facet.  Truths: pairs whose difference is positive on three facets and negative
+    # on the fourth (incomparable by that one facet only), one pair per facet, plus a dominated and a tied pair.
+    for alg in ("PaVeBaGP-DE", "PartialGP-ell") + (("PaVeBaGP-IH",) if ctx.thorough else ()):
+        for spec in ([("ice", 60, 4)] + ([("ice", 30, 4)] if ctx.thorough else [])):
+            for mu in facet_truths(cones.W_of(spec), reach.U_UNIT):
+                us.append(("reach", PROPERTY, alg, spec, 3, 2, mu, 7, 1))
     # bandit algorithms
     bc = [("comp", 2), ("theta", 60), ("theta", 135)] + ([("theta", 45), ("theta", 120), ("theta", 150)] if ctx.thorough else [])
     for spec in bc:
